@@ -66,7 +66,12 @@ func resolvedInputs(s *hist.Source, t hist.Target) [][2]string {
 		}
 		for _, g := range t.Inputs {
 			if ok, _ := path.Match(g, rel); ok || g == rel {
-				out = append(out, [2]string{rel, f.Content})
+				content := f.Content
+				if f.Link != "" {
+					// a symlinked input stands for the bytes of the file it points to
+					content = s.Files[path.Join(path.Dir(p), f.Link)].Content
+				}
+				out = append(out, [2]string{rel, content})
 				break
 			}
 		}
